@@ -138,6 +138,20 @@ def check(run):
                       'after a keep-alive response the server goes straight back to read(): a request already sitting in the receive buffer (two requests in one segment) is not examined until more bytes arrive, so it is never answered')
     else:
         run.check(bool(ka), 'R4', 'rescan-after-response', H + '::on_write', ow.loc(), 'the keep-alive branch does not re-enter on_read', 'keep-alive branch posts on_read(error_code(), 0)')
+    # the keep-alive decision depends on THIS request and the server's fixed flags only
+    run.clause('the keep-alive decision is per request: every member it reads is fixed at construction or assigned on every path of on_read before the response is written (no sticky state from an earlier request or connection)')
+    aw = [c for c in orr.calls() if (q.callee_name(c) or '').split('<')[0].endswith('async_write')]
+    for n_ in ka:
+        for a_, p_ in q.guards_at(ow, n_):
+            for acc in [x for x in q.field_accesses(ow) if any(x.node is y for y in walk(a_))]:
+                if not acc.field.startswith(H + '::'):
+                    continue
+                w = q.writers_of_field(fx, acc.field)
+                ctor_only = all(k.split('::')[-1] == 'http_server' for k in w)
+                per_request = bool(aw) and all(q.any_precedes(orr, [x.site for x in w.get(orr.norm, []) if x.kind == 'assign'], c) for c in aw)
+                run.check(ctor_only or per_request, 'R4', 'keep-alive-per-request', '%s reads %s' % (H + '::on_write', acc.field.split('::')[-1]), ow.loc(a_),
+                          'whether the connection stays open is decided from the member %s, which is written by %s but not assigned on every path of on_read before the response is sent: a value set by an EARLIER request (e.g. one "Connection: close") sticks and closes later keep-alive connections after their first response'
+                          % (acc.field.split('::')[-1], sorted(k.split('::')[-1] for k in w)), 'fixed at construction' if ctor_only else 'assigned for every request before the response is written')
     cl = [c for c in ow.calls() if q.callee_name(c) == H + '::close_connection']
     run.check(len(cl) >= 2, 'R4', 'close-otherwise', H + '::on_write', ow.loc(), 'on_write does not close the connection on error / non-keep-alive', 'closes on error and when not keep-alive')
 
@@ -182,6 +196,10 @@ def check(run):
                 run.check(off == ({'start': 1}, 0), 'R14', 'range-offset', H + '::register_content', lf.loc(b), 'the generator is not asked for the range starting at `start`', 'generator offset is start')
     if not found:
         run.broke('register_content: send_response/gen pair not found')
+    run.clause('the Connection header is found when present: literal keys addressing the parsed header map are lower-case, as parse_request stores them (shared with C18)')
+    nk = engines.header_keys_lowercase(run, [f_ for f_ in fx.repo_functions() if f_.file.endswith('http_server.cpp')])
+    if nk < 1:
+        run.broke('no literal header key found in http_server.cpp ("connection" confirmed by hand)')
     run.clause('the next client is accepted: re-arming the accept re-examines connections that were queued while the server was busy (shared with C06/C07)')
     import p06
     p06.accept_queue_rules(run)
